@@ -23,3 +23,14 @@ GridProp(
             "no oracle: the identities relate autograd's two independently written rule tables directly"],
     selftest=True,
 ).export(globals())
+
+_grid_main_c04 = main
+
+
+def main(tier, only=None):
+    """the grid check plus the float64 probe of adjointness AT the explicitly handled non-smooth points (clip at a
+    bound, ties of maximum / max / sort, abs at 0): vf/props/pinned_probe.py"""
+    import os
+
+    os.environ["VF_EXTRA_RESULTS"] = "vf.props.pinned_adj"
+    return _grid_main_c04(tier, only=only)
